@@ -16,7 +16,7 @@ BASE=$(run_demo confirm-base)
 git apply "$S/patch.diff"; APPLY=$?
 make -j8 >/tmp/confirm-$NAME-build.log 2>&1; BUILD=$?
 if [ -z "$NOTESTS" ]; then
-  make -j8 check >/tmp/confirm-$NAME-check.log 2>&1; CHECK=$?
+  flock /tmp/qb-suite.lock make -j8 check >/tmp/confirm-$NAME-check.log 2>&1; CHECK=$?
   PASSN=$(grep -c "^PASS:" /tmp/confirm-$NAME-check.log); FAILN=$(grep -c "^FAIL:\|^ERROR:" /tmp/confirm-$NAME-check.log)
 else CHECK=-1; PASSN=0; FAILN=0; fi
 CHG=$(run_demo confirm-changed)
